@@ -1,5 +1,201 @@
-import AY.Spec.Plain
+/-
+  C02 — "Merging plain documents is a right-biased recursive mapping update".
+
+  Statement (properties.jsonl): When several tag-free mapping documents are merged in order, the
+  result equals folding them left to right with a recursive update: keys present in only one side
+  are kept, mappings under a common key are merged recursively, and any other value (scalar or
+  list) is replaced wholesale by the newer document's value. A mapping merged onto a list addresses
+  existing indices only (anything else is a MergeError); no key is ever lost and nothing not
+  mentioned by the newer document changes.
+  Quantifier: every sequence of 1..n tag-free mapping documents (arbitrary nesting, int and str
+  keys, empty containers, type changes at a path between stages).
+
+  Model side: `construct` (loader), `mergeF`/`merge` (merge algebra), `flatten` (builder fold with
+  the pre-merge pass).  Specification side (data only): `plainOfRaw`, `upd`, `foldUpd`.
+  Predicates (AY/Lemmas/PlainInv.lean): `rawPlain` — tag-free mapping document; `plainT` — tree
+  built from tag-free documents (accumulated side); `plainO` — freshly constructed document subtree
+  (`plainT` plus: every mapping not below a list is non-deleting).
+  Proofs: AY/Lemmas/{Assoc,Native,PlainInv,Filter,C02Merge,C02Main,C02Construct,C02Fold,UpdFrame}.lean.
+-/
+import AY.Lemmas.C02Fold
+import AY.Lemmas.UpdFrame
 namespace AY
-/-- placeholder so that the pipeline can be exercised; replaced by the real theorems -/
-theorem C02_placeholder : foldUpd [] = .error .value := rfl
+
+/-! ### Concrete documents used by the non-vacuity examples -/
+
+/-- `{a: 1, b: {c: [1, {x: y}], d: x}, 3: [], e: {}}` -/
+def c02Doc1 : Raw :=
+  .map .none {} [
+    (.str "a", .scalar .none {} (.lit (.int 1))),
+    (.str "b", .map .none {} [
+      (.str "c", .seq .none {} [.scalar .none {} (.lit (.int 1)),
+                                .map .none {} [(.str "x", .scalar .none {} (.lit (.str "y")))]]),
+      (.str "d", .scalar .none {} (.lit (.str "x")))]),
+    (.int 3, .seq .none {} []),
+    (.str "e", .map .none {} [])]
+
+/-- `{b: {c: {-1: {z: 2}, 0: 9}, f: ~}, a: {k: [0]}, 3: x}` — a mapping onto a list (negative
+    index), a scalar replaced by a mapping, a list replaced by a scalar, a new key -/
+def c02Doc2 : Raw :=
+  .map .none {} [
+    (.str "b", .map .none {} [
+      (.str "c", .map .none {} [(.int (-1), .map .none {} [(.str "z", .scalar .none {} (.lit (.int 2)))]),
+                                (.int 0, .scalar .none {} (.lit (.int 9)))]),
+      (.str "f", .scalar .none {} .empty)]),
+    (.str "a", .map .none {} [(.str "k", .seq .none {} [.scalar .none {} (.lit (.int 0))])]),
+    (.int 3, .scalar .none {} (.lit (.str "x")))]
+
+/-- `{b: {c: {5: 1}}}` — index out of range once `b.c` is a list: MergeError -/
+def c02Doc3 : Raw :=
+  .map .none {} [(.str "b", .map .none {} [(.str "c", .map .none {} [(.int 5, .scalar .none {} (.lit (.int 1)))])])]
+
+/-! ### The loader on a tag-free document -/
+
+/- "every sequence of … tag-free mapping documents (arbitrary nesting, int and str keys, empty
+   containers…)": one such document is parsed into a node tree whose data is exactly the document
+   and which satisfies the invariant of the newer side of a merge (flags prio/del/new/safe/iNew/
+   iSafe `none`, md `[]`, iDel ∈ {none, some true}, list children numbered 0..n-1, kinds
+   dict/list/scalar only, every mapping not below a list non-deleting). -/
+theorem C02_construct_plain (env : Env) (r : Raw) (h : rawPlain r = true) :
+    ∃ n, construct env r = .ok n ∧ native n = plainOfRaw r ∧ plainO n = true ∧ plainT n = true ∧
+      n.isDict = true := by
+  obtain ⟨n, h1, h2, h3, h4⟩ := construct_plain env r h
+  exact ⟨n, h1, h2, h3, ((plainO_iff n).1 h3).1, h4⟩
+
+example : rawPlain c02Doc1 = true ∧ rawPlain c02Doc2 = true ∧ rawPlain c02Doc3 = true := by decide
+example : ∃ n, construct {} c02Doc1 = .ok n ∧ native n = plainOfRaw c02Doc1 :=
+  (C02_construct_plain {} c02Doc1 (by decide)).imp fun _ h => ⟨h.1, h.2.1⟩
+
+/-! ### One merge -/
+
+/- "keys present in only one side are kept, mappings under a common key are merged recursively,
+   and any other value (scalar or list) is replaced wholesale by the newer document's value. A
+   mapping merged onto a list addresses existing indices only (anything else is a MergeError)":
+   for an accumulated tree `a` and a freshly constructed subtree `b`, with any fuel above the depth
+   of `b`, the model's merge and the specification's `upd` are the same `Except` value up to
+   `native` (success with equal data, or the same error), the result again satisfies the
+   invariant, and the only possible error is MergeError. -/
+theorem C02_merge_is_upd (a b : Node) (ha : plainT a = true) (hb : plainO b = true)
+    (fuel : Nat) (hfuel : b.depth + 1 ≤ fuel) :
+    (match mergeF fuel a b with
+      | .error e => .error e
+      | .ok (r, _) => .ok (native r)) = upd (native a) (native b)
+    ∧ (∀ r same, mergeF fuel a b = .ok (r, same) → plainT r = true)
+    ∧ (∀ e, mergeF fuel a b = .error e → e = .merge) := by
+  have h := mergeF_plain fuel ((native b).depth + 1) a b ha hb (by omega) (by rw [depth_native]; omega)
+  unfold upd
+  cases hm : mergeF fuel a b with
+  | error e =>
+    cases hu : updF ((native b).depth + 1) (native a) (native b) with
+    | error e' => simp only [hm, hu, MRel] at h; simp [h.1, h.2]
+    | ok p => simp [hm, hu, MRel] at h
+  | ok res =>
+    obtain ⟨r, s⟩ := res
+    cases hu : updF ((native b).depth + 1) (native a) (native b) with
+    | error e' => simp [hm, hu, MRel] at h
+    | ok p => simp only [hm, hu, MRel] at h; simp [h.1, h.2]
+
+/- The same for `merge` (`self.ayns.on_merge(NodePath(), other)` with the canonical fuel). -/
+theorem C02_merge_is_upd_top (a b : Node) (ha : plainT a = true) (hb : plainO b = true) :
+    (merge a b).map native = upd (native a) (native b)
+    ∧ (∀ r, merge a b = .ok r → plainT r = true)
+    ∧ (∀ e, merge a b = .error e → e = .merge) := by
+  have h := merge_plain ha hb
+  refine ⟨NRel_map h, ?_, ?_⟩
+  · intro r hr
+    cases hu : upd (native a) (native b) <;> simp_all [NRel]
+  · intro e he
+    cases hu : upd (native a) (native b) <;> simp_all [NRel]
+
+/-- accumulated tree and newer document of the examples -/
+def c02A : Node := match construct {} c02Doc1 with | .ok n => n | .error _ => default
+def c02B : Node := match construct {} c02Doc2 with | .ok n => n | .error _ => default
+example : plainT c02A = true ∧ plainO c02B = true ∧ c02B.depth + 1 ≤ 5 := by decide
+-- the merge of the two concrete documents succeeds, so the statement is exercised on a success …
+example : ((merge c02A c02B).map native).toBool = true := by decide
+-- … and merging the third document afterwards is a MergeError on both sides
+example : (upd (plainOfRaw c02Doc1) (plainOfRaw c02Doc2) >>= fun p => upd p (plainOfRaw c02Doc3)).toBool = false := by
+  decide
+
+/-! ### The builder's fold -/
+
+/- "When several tag-free mapping documents are merged in order, the result equals folding them
+   left to right with a recursive update" — for every non-empty sequence of tag-free mapping
+   documents (each parsed in its own source context), `Builder.flatten` (pre-merge pass, then
+   `merge` stage by stage) and `foldUpd` are the same `Except` value up to `native`: equal data on
+   success, the same error otherwise. -/
+theorem C02_plain_fold (docs : List (Env × Raw)) (hne : docs ≠ [])
+    (h : ∀ d, d ∈ docs → rawPlain d.2 = true) :
+    ∃ ns, constructDocs docs = .ok ns ∧
+      (flatten ns).map native = foldUpd (docs.map (fun d => plainOfRaw d.2)) := by
+  obtain ⟨ns, h1, h2, h3, h4⟩ := constructDocs_plain docs h
+  refine ⟨ns, h1, ?_⟩
+  rw [← h2]
+  apply flatten_plain ns _ h4
+  intro e; subst e
+  cases docs with
+  | nil => exact hne rfl
+  | cons d ds => simp at h3
+
+example : [(({} : Env), c02Doc1), ({}, c02Doc2), ({}, c02Doc3)] ≠ [] ∧
+    ∀ d, d ∈ [(({} : Env), c02Doc1), ({}, c02Doc2), ({}, c02Doc3)] → rawPlain d.2 = true := by
+  refine ⟨by simp, ?_⟩
+  intro d hd
+  simp only [List.mem_cons, List.not_mem_nil, or_false] at hd
+  rcases hd with rfl | rfl | rfl <;> decide
+
+/- The pre-merge pass does nothing on tag-free trees (used by `C02_plain_fold`). -/
+theorem C02_premerge_id (fuel : Nat) (n : Node) (path : Path) (into : Option Node)
+    (hn : plainT n = true) (hd : n.depth < fuel) : premergeF fuel n path into = .ok (n, true, into) :=
+  premergeF_plain fuel n path into hn hd
+
+example : plainT c02A = true ∧ c02A.depth < 7 := by decide
+
+/-! ### Frame properties of the specification -/
+
+/- "no key is ever lost": the keys of an updated mapping are exactly the keys of the older mapping
+   (in their old order, first) and the new keys of the newer mapping. -/
+theorem C02_upd_no_key_lost (fuel : Nat) (as bs : List (Key × Plain)) (r : Plain)
+    (h : updF (fuel + 1) (.dict as) (.dict bs) = .ok r) :
+    ∃ rs, r = .dict rs ∧
+      (∀ k, (alookup k rs).isSome = ((alookup k as).isSome || (alookup k bs).isSome)) ∧
+      (∃ extra, akeys rs = akeys as ++ extra) := by
+  rw [updF_dict_dict] at h
+  cases hu : updF.updDict (updF fuel) as bs with
+  | error e => simp [hu, Except.map] at h
+  | ok rs =>
+    simp only [hu, Except.map] at h
+    injection h with h
+    exact ⟨rs, h.symm, updDict_keys _ bs as rs hu, updDict_prefix _ bs as rs hu⟩
+
+/- "keys present in only one side are kept, mappings under a common key are merged recursively …
+   nothing not mentioned by the newer document changes": pointwise description of a successful
+   update by a mapping without duplicate keys. -/
+theorem C02_upd_frame (fuel : Nat) (as bs : List (Key × Plain)) (r : Plain)
+    (h : updF (fuel + 1) (.dict as) (.dict bs) = .ok r) (hnd : keysNodup bs = true) :
+    ∃ rs, r = .dict rs ∧ ∀ k, alookup k rs =
+      match alookup k bs with
+      | none => alookup k as
+      | some vb =>
+        match alookup k as with
+        | none => some vb
+        | some va => (updF fuel va vb).toOption := by
+  rw [updF_dict_dict] at h
+  cases hu : updF.updDict (updF fuel) as bs with
+  | error e => simp [hu, Except.map] at h
+  | ok rs =>
+    simp only [hu, Except.map] at h
+    injection h with h
+    exact ⟨rs, h.symm, updDict_pointwise _ bs as rs hu hnd⟩
+
+/- "any other value (scalar or list) is replaced wholesale by the newer document's value". -/
+theorem C02_upd_replace (fuel : Nat) (a b : Plain) (hb : ∀ bs, b ≠ .dict bs) :
+    updF (fuel + 1) a b = .ok b := by
+  cases b with
+  | scalar v => exact updF_scalar_right fuel a v
+  | list xs => exact updF_list_right fuel a xs
+  | dict bs => exact absurd rfl (hb bs)
+
+example : (updF 5 (plainOfRaw c02Doc1) (plainOfRaw c02Doc2)).toBool = true := by decide
+
 end AY
